@@ -386,8 +386,6 @@ def _dense_one(case, ctx):
     if any(gg != sorted(gg) for gg in groups):
         ctx.flag("unsorted_group")
     want_sym = rm.is_symmetric(A, groups)
-    ref = rm.symmetrize(A, groups)
-    assert rm.is_symmetric(ref, groups)
     ctx.flag("input_symmetric" if want_sym else "input_asymmetric")
 
     # the symmetry test on the input
@@ -397,6 +395,8 @@ def _dense_one(case, ctx):
     _check_issym(p, ctx, A, groups, g, want_sym, "tensor.issymmetric", dtype=dtype)
     if case["ops"] == "issym":
         return
+    ref = rm.symmetrize(A, groups)          # exact: the data are multiples of prod |g|!
+    assert rm.is_symmetric(ref, groups)
 
     # symmetrisation
     for vname, ver in VERSIONS:
